@@ -837,14 +837,15 @@ class NestedSequenceConverter(t.Generic[T, U], Converter[T]):
         """See [`Converter.collect_errors`][pane.converters.Converter.collect_errors]"""
         if (node := self._collect_errors(val)) is not None:
             return node
-        val = self._try_convert(val)
+        # (error nodes record the value we were given, not the converted one)
+        conv_val = self._try_convert(val)
         if not self.ragged:
             try:
-                self._check_shape(val)
+                self._check_shape(conv_val)
             except ValueError as e:
                 return WrongTypeError(self.expected(), val, info=e.args[0])
         try:
-            self.constructor(val)
+            self.constructor(conv_val)
         except Exception as e:
             tb = e.__traceback__.tb_next  # type: ignore
             tb = traceback.TracebackException(type(e), e, tb)
@@ -967,11 +968,11 @@ class EnumConverter(Converter[enum.Enum]):
         if isinstance(val, self.ty):
             return None  # already a member
         try:
-            val = self.inner_conv.try_convert(val)
+            conv_val = self.inner_conv.try_convert(val)
         except ParseInterrupt:
             return self.inner_conv.collect_errors(val)
         try:
-            self.val_map[val]
+            self.val_map[conv_val]
             return None
         except (KeyError, TypeError):  # TypeError: unhashable value
             return WrongTypeError(self.expected(), val)
@@ -1071,10 +1072,9 @@ class PatternConverter(t.Generic[t.AnyStr], Converter[re.Pattern[t.AnyStr]]):
             raise ParseInterrupt from None
 
     def collect_errors(self, val: t.Any) -> t.Optional[ErrorNode]:
-        if isinstance(val, re.Pattern):
-            val = t.cast(re.Pattern[t.Any], val).pattern
+        pattern = t.cast(re.Pattern[t.Any], val).pattern if isinstance(val, re.Pattern) else val
         try:
-            s = self.ty_conv.try_convert(val)
+            s = self.ty_conv.try_convert(pattern)
         except ParseInterrupt:
             return WrongTypeError(self.expected(), val)
         try:
